@@ -553,6 +553,12 @@ constexpr MagRepresentationOrError<T> get_value_result(Magnitude<BPs...>) {
         return {MagRepresentationOutcome::ERR_CANNOT_FIT};
     }
 
+    // Every Magnitude is strictly positive.  A value so small that it rounds to zero in `T` (say,
+    // `10^-50` in `float`) does not fit in `T` any more than a value which is too large does.
+    if (static_cast<T>(widened_result.value) == T{0}) {
+        return {MagRepresentationOutcome::ERR_CANNOT_FIT};
+    }
+
     return {MagRepresentationOutcome::OK, static_cast<T>(widened_result.value)};
 }
 
